@@ -469,7 +469,7 @@ spec('C18', correspond=c18_correspond, replay=c18_replay, modules=['C18'], plain
 
 # ================================================================================================ C13
 
-PLAIN_SYMS = ['foo', 'bar', 'a', 'b', 'kind']
+PLAIN_SYMS = ['foo', 'bar', 'a', 'b', 'kind', 'list']
 
 def c13_tree(rng, depth=0):
     k = rng.random()
@@ -478,6 +478,7 @@ def c13_tree(rng, depth=0):
         if a < 0.35: return ('int', rng.choice([0, 1, 2, -1, 7, 2**62]))
         if a < 0.55: return ('chr', rng.choice('abcx'))
         if a < 0.8: return ('sym', rng.choice(PLAIN_SYMS))
+        if a < 0.9: return ('str', ''.join(rng.choice('ab') for _ in range(rng.randint(0, 3))))
         return ('nil',)
     if k < 0.8:
         return ('list', [c13_tree(rng, depth + 1) for _ in range(rng.randint(0, 4))])
@@ -492,6 +493,9 @@ def c13_norm(t):
         return r
     if t[0] == 'cons':
         return ('cons', c13_norm(t[1]), c13_norm(t[2]))
+    if t[0] == 'str':
+        # a string IS the list of its characters
+        return c13_norm(('list', [('chr', c) for c in t[1]]))
     return t
 
 def c13_expr(t, rng, meta_rate):
@@ -501,7 +505,12 @@ def c13_expr(t, rng, meta_rate):
     if t[0] == 'chr': return f'%{t[1]}' if meta else f"(car (print '{t[1]}))"
     if t[0] == 'sym': return f"'{t[1]}" if meta else f"(car (. (destructure-function (lambda ({t[1]}) 1)) 'parameters))"
     if t[0] == 'nil': return 'nil' if meta else '()'
+    if t[0] == 'str':
+        return '"' + t[1] + '"' if meta else '(list ' + ' '.join('%' + c for c in t[1]) + ')'
     if t[0] == 'list':
+        if t[1] and t[1][0] == ('sym', 'list') and all(x[0] == 'chr' for x in t[1][1:]) and rng.random() < 0.5:
+            # the datum of a quoted string literal: the symbol `list` followed by the characters — NOT the string
+            return "'\"" + ''.join(x[1] for x in t[1][1:]) + '"'
         if rng.random() < 0.5:
             return '(list ' + ' '.join(c13_expr(x, rng, meta_rate) for x in t[1]) + ')'
         r = 'nil' if rng.random() < 0.3 else '()'
@@ -530,6 +539,11 @@ def c13_mutate(t, rng):
         return ('list', xs)
     if t[0] == 'cons':
         return ('cons', c13_mutate(t[1], rng), t[2]) if rng.random() < 0.5 else ('cons', t[1], c13_mutate(t[2], rng))
+    if t[0] == 'str':
+        c = rng.random()
+        if c < 0.4: return ('list', [('sym', 'list')] + [('chr', x) for x in t[1]])      # the literal's datum: one element more
+        if c < 0.7: return ('list', [('chr', x) for x in t[1]])                          # the same datum, built differently
+        return ('str', t[1] + rng.choice('ab'))
     return c13_tree(rng, 3) if rng.random() < 0.7 else t
 
 def c13_correspond(run, rng, tier):
@@ -987,7 +1001,22 @@ class TrapAst:
         self.n += 1
         n = self.n
         body, out = self.gen(depth - 1)
-        h = r.choice(['return', 'return', 'resignal', 'value', 'abort', 'nested'])
+        h = r.choice(['return', 'return', 'resignal', 'value', 'abort', 'nested', 'symbol', 'cell', 'cell-reads'])
+        if h == 'symbol':
+            # the handler is the bare variable: the value of the trap is the signal itself
+            text = f'(eval (trap {body} *trapped-signal*))'
+            return text, (('ok', out[1]) if out[0] == 'sig' else out)
+        if h in ('cell', 'cell-reads'):
+            # trap OBJECTS built with make-trap: the handler expression is itself a trap object (not a list form), evaluated in the
+            # environment that binds *trapped-signal*
+            if h == 'cell':
+                inner = f"(make-trap (quote (signal (list 'inner *trapped-signal*))) (quote (list 'inner-caught{n} *trapped-signal*)))"
+                hout = (lambda s: ('ok', f'(inner-caught{n} (inner {s}))'))
+            else:
+                inner = f"(make-trap (quote (list 'saw{n} *trapped-signal*)) (quote 'never))"
+                hout = (lambda s: ('ok', f'(saw{n} {s})'))
+            text = f'(eval (make-trap (macroexpand (quote {body})) {inner}))'
+            return text, (hout(out[1]) if out[0] == 'sig' else out)
         if h == 'return':
             handler, hout = f"(list 'caught{n} *trapped-signal*)", (lambda s: ('ok', f'(caught{n} {s})'))
         elif h == 'resignal':
@@ -1068,6 +1097,9 @@ LOOPS = {
     'tail': "(defun spin (n) \"\" (spin (add n 1)))\n(spin 0)",
     'catch-all': "(defun spin2 (n) \"\" (try (spin2 (add n 1)) (catch-all (lambda (e) (list 'handled (. e 'kind))))))\n(spin2 0)",
     'nested-eval': "(defun spin3 (n) \"\" (eval (list 'spin3 (add n 1))))\n(eval (trap (spin3 0) (list 'trapped (. *trapped-signal* 'kind))))",
+    # loops that never apply a Lisp function: only the evaluator's own back-edges (the inlined eval, if)
+    'eval-only': "(define 'w '(eval w) \"\")\n(eval w)",
+    'if-eval': "(define 'u '(if t (eval u) nil) \"\")\n(eval u)",
     'receive': "(list 'got (receive))",
     'terminating': "(foldl add 0 (range 50))",
     'output': "(infinite-loop 0)",
@@ -1110,7 +1142,7 @@ def c19_correspond(run, rng, tier):
         problem = None
         if not after or after[0][:2] != ('ok', '(3 function-type default)'):
             problem = f'after the command the interpreter is not usable / lost its definitions: {r[-1][:200] if r else r}'
-        elif stopping and name in ('tail', 'output'):
+        elif stopping and name in ('tail', 'output', 'eval-only', 'if-eval'):
             want = 'abort' if stopping[0] == 'ABORT' else 'sig'
             if last is None or last[0] != want or (want == 'sig' and 'interrupted' not in last[1]):
                 problem = f'{stopping[0]} did not stop the evaluation as prescribed: {last}'
@@ -1152,6 +1184,8 @@ TAIL_LOOPS = {
     'foldl': ("", "(foldl add 0 (range {n}))", lambda n: str(n * (n - 1) // 2)),
     'reverse-map': ("", "(car (reverse (map (lambda (x) (add x 1)) (range {n}))))", lambda n: str(n) if n > 0 else '()'),
     'zip': ("", "(length (zip (range {n}) (range {n})))", lambda n: str(n)),
+    # a macro whose result is a call of itself: re-expansion is the fix-point loop of macroexpand, constant depth for every n
+    'macro-re-expansion': ("(defmacro count-down (n) \"\" (if (= n 0) (list 'quote 'done) (list 'count-down (substract n 1))))", "(eval '(count-down {n}))", lambda n: 'done'),
 }
 
 DEEP_PATHS = {
@@ -1232,14 +1266,23 @@ def c07_correspond(run, rng, tier):
     for path in DEEP_PATHS:
         for n in ([md + 200] if tier == 'quick' else [md - 1, md + 1, md + 200, 10 * md]):
             ladder.append((path, n))
+    # constant-depth loops must not consume native stack either: the longest tail loops on the dev-profile binary
+    for name in ('if-lambda', 'eval', 'macro-re-expansion'):
+        ladder.append(('tail:' + name, 40000 if tier == 'quick' else 400000))
     from concurrent.futures import ThreadPoolExecutor
     def one(pn):
         path, n = pn
+        if path.startswith('tail:'):
+            defs, call, exp = TAIL_LOOPS[path[5:]]
+            prog = '(block ' + defs.replace('\n', ' ') + ' ' + f"(eval (trap {call.format(n=n)} (list 'caught (. *trapped-signal* 'kind))))" + ')'
+            return pn, prog, run_plain_expression(prog)
         prog = deep_program(path, n).replace('\n', ' ')
         return pn, prog, run_plain_expression('(block ' + prog + ')' if DEEP_PATHS[path][0] else prog)
     with ThreadPoolExecutor(max_workers=8) as ex:
         for (path, n), prog, (rc, out, err) in ex.map(one, ladder):
             dist['process-runs'] = dist.get('process-runs', 0) + 1
+            if path.startswith('tail:') and rc == 0 and 'caught' in out:
+                failures.append({'expression': prog[:400], 'exit': rc, 'stdout': out[-200:], 'problem': f'a constant-depth loop of {n} rounds through {path[5:]} raised a signal on the dev-profile binary'})
             if rc != 0 or 'overflow' in err.lower() and 'stackoverflow' not in out:
                 failures.append({'expression': prog[:400], 'exit': rc, 'stderr': err[-200:], 'stdout': out[-200:],
                                  'problem': f'the dev-profile binary did not survive recursion depth {n} through {path} on its configured stack (native stack overflow or crash)',
@@ -1298,14 +1341,50 @@ def c15_history(rng):
         forms.append("(get-current-module)")
     return '\n'.join(forms)
 
+def c15_module_sequence(rng):
+    """define / undefine / export sequences inside a loaded module (fresh module, with or without an export list);
+    every operation prints its outcome; returns (program, expected output)"""
+    names = ['p', 'q', 'r']
+    defined, lines, forms = {}, [], []
+    for _ in range(rng.randint(3, 12)):
+        k = rng.random()
+        n = rng.choice(names)
+        if k < 0.2:
+            forms.append(f"(export (quote ({' '.join(rng.sample(names, rng.randint(1, 2)))})))")
+        elif k < 0.7:
+            v = rng.randint(0, 99)
+            forms.append(f"(output (print (eval (trap (define (quote {n}) {v} (list)) (. *trapped-signal* (quote kind))))))")
+            if n in defined:
+                lines.append('already-defined')
+            else:
+                defined[n] = v
+                lines.append('ok')
+        elif k < 0.85:
+            forms.append(f"(output (print (undefine (quote {n}))))")
+            defined.pop(n, None)
+            lines.append('ok')
+        else:
+            forms.append(f"(output (print (eval (trap {n} (quote unbound)))))")
+            lines.append(str(defined[n]) if n in defined else 'unbound')
+    text = ' '.join(forms).replace('\\', '\\\\').replace('"', '\\"')
+    return f'(load-all "{text}" "m{rng.randint(0, 2)}")\n(get-current-module)', ''.join(l + '\n' for l in lines)
+
 def c15_correspond(run, rng, tier):
     n = 600 if tier == 'quick' else 10000
     progs = [c15_history(rng) for _ in range(n)]
-    sessions = eval_sessions(progs)
+    mseq = [c15_module_sequence(rng) for _ in range(n // 2)]
+    mprogs = [p for p, _ in mseq]
+    sessions = eval_sessions(progs + mprogs)
     real, model = both(sessions)
     diffs = compare(sessions, real, model)
     failures = crash_failures(sessions, real)
-    dist = {'loads': 0, 'loads-stopped': 0, 'define-existing': 0, 'aborted-forms': 0}
+    dist = {'loads': 0, 'loads-stopped': 0, 'define-existing': 0, 'aborted-forms': 0, 'module-sequences': len(mseq)}
+    for (p, expected_out), r in zip(mseq, real[len(progs):]):
+        res, tr = parse_eval(r[1] if len(r) > 1 else '')
+        out = (tr or {}).get('out')
+        if out != expected_out or not res or len(res) != 2 or res[1][:2] != ('ok', 'default'):
+            failures.append({'expression': p, 'expected_output': expected_out, 'real_output': out, 'real': str(res)[:200],
+                             'problem': 'define / undefine inside a loaded module: define overwrote, failed to signal, or undefine did not remove exactly that name'})
     for p, r in zip(progs, real):
         res, trailer = parse_eval(r[1] if len(r) > 1 else '')
         forms = p.split('\n')
@@ -1482,7 +1561,7 @@ def c11_replay(run, content):
                                                                                     {'finding': 'F25-error-position-of-newline'} if p.startswith('error position') and ref.get('msg', '').startswith("'\n' is not") else {})})
     return {'evaluations': len(fs), 'distinct_nontrivial': max(2, len(fs)), 'samples': [f['text'] for f in fs[:3]] or ['none'], 'disagreements': compare(sessions, real, model), 'oracle_failures': out, 'rule': 'replay'}
 
-spec('C11', correspond=c11_correspond, replay=c11_replay, modules=['C11'],
+spec('C11', correspond=c11_correspond, replay=c11_replay, modules=['C11', 'C11b'],
      search=lambda run, rng, d: c11_correspond(run, random.Random(rng.random()), 'quick')['oracle_failures'],
      trusted=['char::is_whitespace = the Unicode White_Space table (compared for every scalar value on every run)', 'the reference reader (Python) as the statement of the grammar', 'the correspondence check'],
      assumptions=['a character literal is % followed by exactly one code point or one of the five escapes (after the fix that removed the grapheme counter)',
@@ -1637,7 +1716,12 @@ def c06_correspond(run, rng, tier):
                     'followed by a handle audit; plus process-level runs of the two native recursions that have no depth counter',
             'samples': [calls[5], calls[900], garbage[0][:200]], 'disagreements': diffs, 'oracle_failures': failures, 'distribution': kinds, 'findings_seen': findings_seen}
 
-spec('C06', correspond=c06_correspond, replay=generic_replay, modules=['C06', 'C06Eval'],
+def c06_panic_inventory():
+    from translate import panics
+    return ['panic-site inventory (orchestrator/translate/panic_sites.json) no longer matches the source — ' + d +
+            ': the crash outcomes of the model are no longer known to be all the panics of the code' for d in panics.check(os.path.join(lib.REPO, 'src'))]
+
+spec('C06', correspond=c06_correspond, replay=generic_replay, modules=['C06', 'C06Eval'], obligations=[c06_panic_inventory],
      search=lambda run, rng, d: c06_correspond(run, random.Random(rng.random()), 'quick')['oracle_failures'],
      trusted=['the evaluator / reader / printer models are tied to the Rust code by differential execution', 'the correspondence check'],
      assumptions=['values are well formed (metadata cells never nest: allocate_metadata refuses to build one)', 'allocation failure (out of memory) is outside the model',
@@ -1816,7 +1900,17 @@ def c20_programs(rng, n):
              "(map (lambda (x) (multiply x x)) (range 4))", "(foldl add 0 '(1 2 3))", "(eval (trap (car 5) (list 'caught (. *trapped-signal* 'kind))))", "(try (throw 'kind 'k1 'source 's) (catch k1 (lambda (e) 'handled)))",
              "(and 1 (or nil 2))", "(case ((= 1 2) 'a) ((= 1 1) 'b) (t 'c))", "(eval '(add 1 2))", "(quote (a b c))", "((lambda (f) (f (f 1))) (lambda (x) (add x 10)))", "'()", "5", "%a", "\"str\"",
              "(reverse '(1 2 3))", "(length (append '(1 2) '(3)))", "(not nil)", "(block (output \"a\") (output \"b\") 3)", "(signal '(kind custom source here))", "(abort)",
-             "((lambda (x y) (add x y)) 1)", "(if 1 2)", "undefined-sym", "(car 5)"]
+             "((lambda (x y) (add x y)) 1)", "(if 1 2)", "undefined-sym", "(car 5)",
+             # repaired: duplicate parameter names (the later one shadows), macros in the argument of eval
+             "((lambda (x x) x) 1 2)", "((lambda (a & a) a) 1 2)", "(eval '(when t 1))", "(eval '(let (a 1) (add a 1)))", "(eval (list 'or nil 5))", "((lambda (x) (eval '(when x 'y))) 1)",
+             # known finding F32: a local variable named eval
+             "((lambda (eval) (eval 3)) car)",
+             # operator expressions with an observable side effect: evaluated exactly once
+             "((block (output \"pick\") add) 1 2)", "((if (block (output \"c\") t) car cdr) '(1 2))", "(((lambda (n) (block (output \"mk\") (lambda (x) (add x n)))) 2) 3)",
+             "((eval (trap (signal 'k) (block (output (print *trapped-signal*)) (lambda (& r) r)))) 1 2)", "(list ((block (output \"a\") car) '(1)) ((block (output \"b\") cdr) '(1)))",
+             # operands and branches with side effects, shadowing, closures over loop variables
+             "((lambda (x) ((lambda (x) (block (output (print x)) x)) (add x 1))) 1)", "(map (lambda (x) (block (output (print x)) x)) '(1 2 3))",
+             "(if (block (output \"cond\") nil) (output \"then\") (output \"else\"))", "(eval (trap (block (output \"before\") (car 5) (output \"after\")) (block (output \"handler\") 7)))"]
     progs = list(fixed)
     for _ in range(n):
         g = Gen(rng, ALL - {'globals', 'gensym'}, fault_rate=rng.choice([0.0, 0.0, 0.0, 0.15]), max_depth=rng.choice([2, 3, 4]))
@@ -1859,7 +1953,10 @@ def c20_correspond(run, rng, tier):
             if outs.get(mode) != direct:
                 f = {'expression': p, 'mode': mode, 'direct_eval': str(direct)[:300], 'debug_eval': str(outs.get(mode))[:300],
                      'problem': 'the stepping evaluator and the evaluator disagree on value / signal / output'}
-                if direct and direct[0] == 'sig' and any(k in direct[1] for k in ILL_FORMED_KINDS) or (outs.get(mode) and outs[mode][0] == 'sig' and 'stackoverflow' in (outs[mode][1] or '')):
+                if p == "((lambda (eval) (eval 3)) car)":
+                    f['finding'] = 'F32-debugger-local-variable-named-eval'
+                    findings_seen.add('F32-debugger-local-variable-named-eval')
+                elif direct and direct[0] == 'sig' and any(k in direct[1] for k in ILL_FORMED_KINDS) or (outs.get(mode) and outs[mode][0] == 'sig' and 'stackoverflow' in (outs[mode][1] or '')):
                     f['finding'] = 'F22-debugger-on-ill-formed-programs'
                     findings_seen.add('F22-debugger-on-ill-formed-programs')
                 failures.append(f)
@@ -1965,6 +2062,24 @@ def c16_cases(rng, tier):
     m('(let (a (tag 1 10)) (let (a (tag 2 20)) a))', '20', [1, 2])
     m("(case ((tag 1 nil) (tag 2 'a)) ((tag 3 5) (tag 4 'b)) ((tag 5 t) (tag 6 'c)))", 'b', [1, 3, 4])
     m("(case ((tag 1 nil) 'a))", '()', [1])
+    # case, systematically: 1-3 clauses, every condition and every value nil or not; the first true clause decides, nothing after it is evaluated
+    for nclauses in (1, 2, 3):
+        for bits in itertools.product([0, 1], repeat=2 * nclauses):
+            conds, vals = bits[:nclauses], bits[nclauses:]
+            text, trace, value, decided = [], [], '()', False
+            for i in range(nclauses):
+                ci, vi = 2 * i + 1, 2 * i + 2
+                text.append(f"((tag {ci} {'t' if conds[i] else 'nil'}) (tag {vi} {chr(39) + 'v' + str(i) if vals[i] else 'nil'}))")
+                if not decided:
+                    trace.append(ci)
+                    if conds[i]:
+                        trace.append(vi)
+                        value = f'v{i}' if vals[i] else '()'
+                        decided = True
+            m('(case ' + ' '.join(text) + ')', value, trace)
+    # try: the first matching catcher decides, also when it returns nil
+    m("(try (throw 'kind 'boom) (catch boom (lambda (e) (tag 1 nil))) (catch-all (lambda (e) (tag 2 'fell-through))))", '()', [1])
+    m("(try (throw 'kind 'boom) (catch other (lambda (e) (tag 1 nil))) (catch boom (lambda (e) (tag 2 nil))) (catch boom (lambda (e) (tag 3 'second))))", '()', [2])
     m("(try (tag 1 5) (catch-all (lambda (e) (tag 2 'caught))))", '5', [1])
     m("(try (block (tag 1 1) (throw 'kind 'boom 'source 'here) (tag 2 2)) (catch other (lambda (e) (tag 3 'wrong))) (catch boom (lambda (e) (tag 4 (. e 'source)))) (catch-all (lambda (e) (tag 5 'all))))", 'here', [1, 4])
     m("(try (signal 'plain) (catch boom (lambda (e) 'wrong)) (catch-all (lambda (e) (tag 1 e))))", 'plain', [1])
@@ -2013,7 +2128,7 @@ def c16_correspond(run, rng, tier):
                     'value, signal kind and output trace compared between the real interpreter, the model and the documented meaning (Python); plus the closures bound by the current prelude.lisp (real vs model) and the generated constants the theorems are about',
             'samples': [progs[0], progs[20], progs[-6]], 'disagreements': diffs, 'oracle_failures': failures, 'distribution': dist, 'findings_seen': findings_seen}
 
-spec('C16', correspond=c16_correspond, replay=generic_replay, modules=['C16'],
+spec('C16', correspond=c16_correspond, replay=generic_replay, modules=['C16', 'C16b'],
      search=lambda run, rng, d: c16_correspond(run, random.Random(rng.random()), 'quick')['oracle_failures'],
      trusted=['the evaluator model is tied to eval/mod.rs by differential execution', 'Generated/Prelude.lean is regenerated from prelude.lisp on every run and compared with what the model binds (preludecheck)', 'the correspondence check'],
      assumptions=['foldr, init and concat are not tail recursive: lists longer than about half the depth limit raise stackoverflow (stated, not a deviation from the documentation)',
